@@ -137,16 +137,19 @@ PROPS['C08'] = dict(
     explanation='Ranges: Range::next is verified on its real body for a generic R: RangeBounds<&[u8]> (all nine combinations of included / excluded / unbounded) against the '
                 'documented Cursor semantics: everything yielded lies within both bounds and is the entry at the cursor; on the first call no entry that satisfies both bounds is '
                 'skipped; later calls advance by exactly one entry and yield None only at the end or beyond the upper bound; the cursor stays well-formed. '
-                'Cursor::{seek, current, seek_first, next} and `search` are verified on their real bodies over an abstract tree interface: no panic (no underflow on empty nodes, no unwrap of an empty stack, '
-                'no leaf access on a branch), termination, every stack entry indexes into its node, next() after the end is harmless (position unchanged, None again), '
-                'current() is total (callable after any sequence of seek/next).',
+                'Cursor::{seek, current, seek_first, advance, on_emptied_leaf, next} and `search` are verified on their real bodies over an abstract tree interface: no panic (no underflow on empty nodes, no unwrap of an empty stack, '
+                'no leaf access on a branch), every stack entry indexes into its node, next() after the end is harmless (position unchanged, None again), '
+                'current() is total (callable after any sequence of seek/next). R2-full: with num(stack) := number of entries strictly before the position in the in-order numbering of the tree '
+                '(DEFINED recursively over the abstract tree: size/prefix/num in prelude/cursor_order.rs, all lemmas proved), seek and search leave a root-to-leaf path, advance() moves to exactly the next position '
+                '(num grows by one iff the old position held an entry) and answers false only when nothing lies after it, and next() yields the entry whose number is next_target (0 on a fresh cursor, '
+                'num after a seek, num+1 after a yielded entry) and None only when next_target >= size(root): every entry exactly once, in tree order, none skipped, also across leaves emptied inside the transaction.',
     level_text='Single-step contract of the range iterator proved for every bucket content, every key and every bound; the whole-scan statement follows by induction over calls (paper).',
     level_note='Range::next is RELATIVE to the Cursor contract (prelude/cursor_contract.rs: seek stops at the key or just before where it would be; first next yields the current slot). '
-               'The cursor unit proves panic-freedom, termination and stack discipline of the real cursor over an assumed structurally sound tree; that the traversal is in key order (R2-full) and '
-               'PageNode::index (binary search, slot-before rule) are assumed. Byte-string order is an uninterpreted strict total order.',
+               'The cursor unit proves the traversal against the in-order numbering of an assumed structurally sound tree (branches non-empty, finite height); that tree order IS ascending key order is C05 of the state the cursor runs on (assumed here), '
+               'and WHERE seek lands relative to the key (PageNode::index, slot-before rule) is proved per node in unit pagenode but not composed over levels. Termination of the skip-emptied-leaves loop in Cursor::next is not proved. Byte-string order is an uninterpreted strict total order.',
     assumptions=[A_TOOLS, 'Cursor::{seek,current,next} by assumed contract over an abstract ascending key sequence', 'byte-string comparison is a strict total order (axiom_key_order); rule R10: `a < *b` on &[u8] compares the slices',
                  'the RangeBounds implementation agrees with its vstd specification (true for every std range type and (Bound, Bound))'],
-    not_covered=['in-order traversal of the tree by Cursor (R2-full; assumed contract)', 'bucket-only / pair-only filters (R3: generic `for data in self.i.by_ref()` is outside what Verus accepts)'],
+    not_covered=['that the position seek leaves is the slot-before of the key over ALL levels (per node: unit pagenode)', 'termination of the loop in Cursor::next that skips leaves emptied inside the transaction (partial correctness only; advance and seek_first terminate)', 'bucket-only / pair-only filters (R3: generic `for data in self.i.by_ref()` is outside what Verus accepts)'],
 )
 
 A_TREEIF = 'the tree a cursor walks is an abstract interface (prelude/cursor_tree.rs): branch nodes are never empty, children are strictly lower (finite height), the shape does not change while the cursor walks'
@@ -158,12 +161,13 @@ PROPS['C07'] = dict(
     explanation='A write transaction reads a MIXTURE of untouched mapped pages and modified in-memory nodes. Proved on the real bodies, for all node contents: '
                 'PageNode::{leaf, len, index_page, index, val} satisfy ONE contract stated over the node view (len, leaf, key(i), child(i)) whichever representation is behind it '
                 '(representation independence: the Page and the Node arm answer by the same specification, incl. the binary-search slot-before rule); Node::insert_data / delete are '
-                'map insert / remove on an ascending entry sequence (what later reads see is exactly the put/delete applied); the cursor code (seek, current, seek_first, next, search) never panics, terminates '
-                'and keeps every stack entry inside its node on any such mixture.',
-    level_text='Unbounded proofs of the per-node read/write operations and of cursor safety; NOT a proof that the composed read API equals a model after every operation.',
+                'map insert / remove on an ascending entry sequence (what later reads see is exactly the put/delete applied); the cursor code (seek, current, seek_first, advance, on_emptied_leaf, next, search) never panics '
+                'and keeps every stack entry inside its node on any such mixture; and (R2-full) next() yields every entry of the mixture exactly once in tree order, None only when none is left, '
+                'in particular across leaves whose entries were all deleted inside the transaction (defect E8, fixed).',
+    level_text='Unbounded proofs of the per-node read/write operations, of cursor safety and of in-order completeness of the traversal; NOT a proof that the composed read API equals a model after every operation (the overlay rule and bucket-level operations are assumed / elsewhere).',
     level_note='The overlay rule itself (InnerBucket::page_node: a page id resolves to the transaction\'s node iff one exists) could not be brought under contract: the real struct is a recursive Rc<RefCell<..>>/HashMap graph; it is an assumed interface of the cursor unit. Bucket-level put/delete/get and nested buckets are not under contract.',
     assumptions=[A_TOOLS, A_ARITH, A_TREEIF, A_ELEMS, 'RefCell stand-in (sequential view)', 'byte-string order is a strict total order'],
-    not_covered=['InnerBucket::page_node overlay rule (N3)', 'that a cursor visits every entry of a modified tree in order (R2-full); the "emptied non-last leaf hides later keys" behaviour named in the property text is therefore outside this check', 'bucket listing and point lookups through InnerBucket::get'],
+    not_covered=['InnerBucket::page_node overlay rule (N3)', 'termination of the skip-emptied-leaves loop of Cursor::next', 'bucket listing and point lookups through InnerBucket::get'],
 )
 
 PROPS['C05'] = dict(
